@@ -753,6 +753,70 @@ def _inline_nested_functions(fn):
     ast.fix_missing_locations(fn)
 
 
+def _container_aliases(fn):
+    """`xs = self.all_servers_busy ... xs.append(v) ... sum(xs)`: a local bound once to a container attribute of self (a plain attribute path, which the function
+    never re-assigns) and used as the receiver of a mutating call is another name for that attribute: uses are spelled with the path.  (Only such
+    mutated containers: plain read-only temporaries are left to the rules' own read-through, which is order-aware.)"""
+    cnt, val = {}, {}
+    for x in ast.walk(fn):
+        if isinstance(x, ast.Name) and isinstance(x.ctx, (ast.Store, ast.Del)):
+            cnt[x.id] = cnt.get(x.id, 0) + 1
+        if isinstance(x, ast.Assign) and len(x.targets) == 1 and isinstance(x.targets[0], ast.Name):
+            val[x.targets[0].id] = x
+    params = {a.arg for a in fn.args.args} | ({fn.args.vararg.arg} if fn.args.vararg else set()) | ({fn.args.kwarg.arg} if fn.args.kwarg else set())
+    def path(v):
+        n = 0
+        while isinstance(v, ast.Attribute):
+            v, n = v.value, n + 1
+        return n >= 1 and isinstance(v, ast.Name) and v.id == "self"
+    written = set()
+    for x in ast.walk(fn):
+        tg = x.targets if isinstance(x, ast.Assign) else [x.target] if isinstance(x, (ast.AugAssign, ast.AnnAssign)) else x.targets if isinstance(x, ast.Delete) else []
+        for t in tg:
+            for tt in (t.elts if isinstance(t, (ast.Tuple, ast.List)) else [t]):
+                if isinstance(tt, ast.Attribute):
+                    written.add(ast.unparse(tt))
+    mutated = {x.func.value.id for x in ast.walk(fn) if isinstance(x, ast.Call) and isinstance(x.func, ast.Attribute) and x.func.attr in MUTATORS and isinstance(x.func.value, ast.Name)}
+    table = {}
+    for k, st in val.items():
+        if cnt.get(k) == 1 and k not in params and k in mutated and path(st.value):
+            ptxt = ast.unparse(st.value)
+            if not any(w == ptxt or ptxt.startswith(w + ".") for w in written):
+                table[k] = st
+    if not table:
+        return
+    class Sub(ast.NodeTransformer):
+        def visit_Name(self, n):
+            if isinstance(n.ctx, ast.Load) and n.id in table:
+                return ast.copy_location(copy.deepcopy(table[n.id].value), n)
+            return n
+        def visit_Assign(self, n):
+            if any(n is st for st in table.values()):
+                return ast.copy_location(ast.Pass(), n)
+            self.generic_visit(n)
+            return n
+    Sub().visit(fn)
+
+
+def _continue_guards(fn):
+    """inside a loop body, `if T: continue` followed by REST (at the top level of that body) is `if not T: REST`"""
+    changed = True
+    while changed:
+        changed = False
+        for lp in [x for x in ast.walk(fn) if isinstance(x, (ast.For, ast.While))]:
+            body = lp.body
+            for i, st in enumerate(body):
+                if isinstance(st, ast.If) and not st.orelse and len(st.body) == 1 and isinstance(st.body[0], ast.Continue) and i + 1 < len(body):
+                    rest = body[i + 1:]
+                    new = ast.If(test=ast.UnaryOp(op=ast.Not(), operand=st.test), body=rest, orelse=[])
+                    ast.copy_location(new, st)
+                    lp.body = body[:i] + [new]
+                    changed = True
+                    break
+            if changed:
+                break
+
+
 def desugar_function(fn):
     """rewrite fn.body in place; returns True if something changed"""
     before = ast.dump(fn)
@@ -763,6 +827,8 @@ def desugar_function(fn):
     lits = _dict_literals(fn)
     d = _Desugar(lits)
     fn.body = d._stmts(fn.body)
+    _container_aliases(fn)
+    _continue_guards(fn)
     ast.fix_missing_locations(fn)
     return ast.dump(fn) != before
 
